@@ -60,6 +60,7 @@ static void c09_period_check(Ctx& ctx, const Args& a)
     if (iabs128(y) >= LIM) { if (ci == 0) { ctx.skip(); return; } continue; }
     int64_t v0, v1; int id = iscos ? E_cos : E_sin;
     if (!ctx.call(ci, id, x, v0) || !ctx.call(ci, id, (int64_t)y, v1)) continue;
+    if (v0 > 65536 || v0 < -65536 || v1 > 65536 || v1 < -65536) ctx.fail(ci, strf("%s of %" PRId64 " or %s lies outside [-1, 1]: %" PRId64 ", %" PRId64, iscos ? "cos" : "sin", x, i128s(y).c_str(), v0, v1));
     if (v0 != v1) ctx.fail(ci, strf("%s(%" PRId64 ") = %" PRId64 " but %s(x + %" PRId64 "*2*phi = %s) = %" PRId64, iscos ? "cos" : "sin", x, v0, iscos ? "cos" : "sin", k, i128s(y).c_str(), v1));
   }
 }
@@ -75,7 +76,7 @@ static Args c09_period_decode(Ctx& ctx, Dec& d)
   return { fn, x, k };
 }
 static Reg r_c09_period({ "C09.period", "C09", "rc",
-  "(x, k) with |x| < 2^46 and |x + k*2*phi| < 2^46 (phi read from the library build): x bit-length uniform up to 46 bits, k small in [-4,4] (1/5) or bit-length uniform up to 27 bits, clamped into the admissible interval; oracle (metamorphic): sin(x + k*2*phi) == sin(x) and cos alike, bit-for-bit; non-trivial = k != 0",
+  "(x, k) with |x| < 2^46 and |x + k*2*phi| < 2^46 (phi read from the library build): x bit-length uniform up to 46 bits, k small in [-4,4] (1/5) or bit-length uniform up to 27 bits, clamped into the admissible interval; oracle (metamorphic): sin(x + k*2*phi) == sin(x) and cos alike, bit-for-bit, and both results within [-1, 1]; non-trivial = k != 0",
   c09_period_check, 16, c09_period_decode, nullptr });
 
 // ================================================================ C10
